@@ -589,13 +589,12 @@ Qed.
 (* ------------------------------------------------------------------------------------------
    MultiplyByQuantizedMultiplier *)
 Lemma mbqm_eq_reference_lemma x m s :
-  in_int 32 x = true -> 0 <= m < 2 ^ 31 -> 0 <= s <= 62 ->
+  in_int 32 x = true -> in_int 32 m = true -> 0 <= s <= 62 ->
   in_int 32 (x * 2 ^ (Z.max 0 (31 - s))) = true ->
   G.multiply_by_quantized_multiplier x m s = Some (MultiplyByQuantizedMultiplier x m (31 - s)) /\
   in_int 32 (MultiplyByQuantizedMultiplier x m (31 - s)) = true.
 Proof.
-  intros Hx Hm Hs Hp. change (2 ^ 31) with 2147483648 in Hm.
-  assert (Hmi : in_int 32 m = true) by (apply in_int32_true; unfold in32; lia).
+  intros Hx Hmi Hs Hp.
   unfold G.multiply_by_quantized_multiplier, MultiplyByQuantizedMultiplier. cbv zeta.
   destruct (Z.gtb_spec (31 - s) 0) as [Hl|Hl].
   - (* left shift *)
@@ -991,7 +990,7 @@ Qed.
 Example srdhm32_example :
   G.saturating_rounding_mul32 (-2147483648) 2147483647 = Some (-2147483647) /\
   SRDHM32 (-2147483648) 2147483647 = -2147483647 /\
-  G.saturating_rounding_mul32 (-3) 1073741824 = Some (-1) /\   (* -1.5 rounds away from zero *)
+  G.saturating_rounding_mul32 (-3) 1073741824 = Some (-1) /\   (* -1.5 rounds to -1: ties go up *)
   G.saturating_rounding_mul32 (-2147483648) (-2147483648) = Some 2147483647.
 Proof. vm_compute. repeat split. Qed.
 Example srdhm16_example :
@@ -1030,4 +1029,168 @@ Example downscale_example :
   G.downscale_multiplier_int32_to_int16 2147483647 = Some 32767 /\
   G.downscale_multiplier_int32_to_int16 1073741824 = Some 16384 /\
   DownScaleInt32ToInt16Multiplier 1073774591 = 16384.
+Proof. vm_compute. repeat split. Qed.
+
+(* ------------------------------------------------------------------------------------------
+   magnitude bounds (needed to show that adding a zero point cannot leave the C type) *)
+Lemma srdhm32_c_abs a m : in32 a -> in32 m -> Z.abs (srdhm32_c a m) <= Z.abs a.
+Proof.
+  intros Ha Hm. destruct ((a =? m) && (a =? -2147483648)) eqn:Eo.
+  - unfold srdhm32_c. rewrite Eo. rewrite andb_true_iff, !Z.eqb_eq in Eo. lia.
+  - pose proof (srdhm32_c_bounds a m Ha Hm Eo) as [U L]. unfold in32 in *. nia.
+Qed.
+
+Lemma srdhm16_c_abs a m : in16 a -> in16 m -> Z.abs (srdhm16_c a m) <= Z.abs a.
+Proof.
+  intros Ha Hm. destruct ((a =? m) && (a =? -32768)) eqn:Eo.
+  - unfold srdhm16_c. rewrite Eo. rewrite andb_true_iff, !Z.eqb_eq in Eo. lia.
+  - pose proof (srdhm16_c_bounds a m Ha Hm Eo) as [U L]. unfold in16 in *. nia.
+Qed.
+
+Lemma sdhm16_c_abs a b : in16 a -> in16 b -> Z.abs (sdhm16_c a b) <= Z.abs b.
+Proof.
+  intros Ha Hb. unfold sdhm16_c. destruct ((a =? b) && (a =? -32768)) eqn:Eo.
+  - rewrite andb_true_iff, !Z.eqb_eq in Eo. lia.
+  - destruct (quot_bounds (a * b) 32768 ltac:(lia)) as [H1 H2]. unfold in16 in *.
+    destruct (Z.le_ge_cases 0 (a * b)) as [Hs|Hs]; [specialize (H1 Hs)|specialize (H2 Hs)]; nia.
+Qed.
+
+Lemma rdbpot_c_abs x e : 0 <= e -> Z.abs (rdbpot_c x e) <= Z.abs x.
+Proof.
+  intros He. destruct (Z.eq_dec e 0) as [->|Hne]; [rewrite rdbpot_c_e0; lia|].
+  pose proof (rdbpot_c_bounds x e ltac:(lia)) as [U L].
+  pose proof (pow2_pos (e - 1) ltac:(lia)) as Hp. rewrite (pow2_half e ltac:(lia)) in *.
+  set (p := 2 ^ (e - 1)) in *. set (r := rdbpot_c x e) in *.
+  destruct (Z.le_ge_cases 0 x); destruct (Z.le_ge_cases 0 r); nia.
+Qed.
+
+Lemma rdbpot_c_in16 x e : in16 x -> 0 <= e -> in16 (rdbpot_c x e).
+Proof.
+  intros Hx He. destruct (Z.eq_dec e 0) as [->|Hne]; [rewrite rdbpot_c_e0; assumption|].
+  pose proof (rdbpot_c_bounds x e ltac:(lia)) as [U L].
+  pose proof (pow2_pos (e - 1) ltac:(lia)) as Hp. rewrite (pow2_half e ltac:(lia)) in *.
+  set (p := 2 ^ (e - 1)) in *. unfold in16 in *. split; nia.
+Qed.
+
+Lemma pow2_le_15 n : 0 <= n <= 15 -> 1 <= 2 ^ n <= 32768.
+Proof. intros. pose proof (pow2_pos n). pose proof (pow2_le n 15). change (2 ^ 15) with 32768 in *. lia. Qed.
+
+Lemma RDBPOT16_closed x e : in16 x -> 0 <= e <= 15 -> RoundingDivideByPOT16 x e = rdbpot_c x e.
+Proof.
+  intros Hx He. pose proof (rdbpot_c_in16 x e Hx ltac:(lia)) as Hr. revert Hr.
+  unfold RoundingDivideByPOT16, rdbpot_c. cbv zeta.
+  rewrite shiftl_1 by lia. pose proof (pow2_le_15 e He) as Hp.
+  rewrite (cast64_id (2 ^ e)) by (unfold in64; lia).
+  rewrite (cast16_id (2 ^ e - 1)) by (unfold in16; lia).
+  rewrite land_ones_mod by lia. rewrite !land_mask_if. rewrite !shiftr_div by lia.
+  change (2 ^ 1) with 2.
+  assert (0 <= (2 ^ e - 1) / 2 < 16384).
+  { split; [apply Z.div_pos; lia|apply Z.div_lt_upper_bound; lia]. }
+  rewrite (cast16_id ((2 ^ e - 1) / 2 + _)) by (unfold in16; destruct (x <? 0); lia).
+  intros Hr. rewrite cast16_id; [reflexivity|exact Hr].
+Qed.
+
+(* ------------------------------------------------------------------------------------------
+   MultiplyByQuantizedMultiplier in closed form, and its magnitude *)
+Definition mbqm_c (x m s : Z) : Z :=
+  rdbpot_c (srdhm32_c (x * 2 ^ Z.max 0 (31 - s)) m) (Z.max 0 (s - 31)).
+
+Lemma mbqm_gen_closed x m s :
+  in32 m -> 0 <= s <= 62 -> in32 (x * 2 ^ Z.max 0 (31 - s)) ->
+  G.multiply_by_quantized_multiplier x m s = Some (mbqm_c x m s).
+Proof.
+  intros Hm Hs Hp. unfold G.multiply_by_quantized_multiplier, mbqm_c. cbv zeta.
+  assert (E1 : (if 31 - s >? 0 then 31 - s else 0) = Z.max 0 (31 - s)) by (destruct (Z.gtb_spec (31 - s) 0); lia).
+  assert (E2 : (if 31 - s <? 0 then - (31 - s) else 0) = Z.max 0 (s - 31)) by (destruct (Z.ltb_spec (31 - s) 0); lia).
+  rewrite E1, E2. rewrite shiftl_1 by lia.
+  rewrite (srdhm32_gen_closed _ m Hp Hm).
+  rewrite rdbpot_gen_closed by (try apply srdhm32_c_in32; (assumption || lia)). reflexivity.
+Qed.
+
+Lemma mbqm_c_abs x m s :
+  in32 m -> 0 <= s -> in32 (x * 2 ^ Z.max 0 (31 - s)) -> Z.abs (mbqm_c x m s) <= Z.abs (x * 2 ^ Z.max 0 (31 - s)).
+Proof.
+  intros Hm Hs Hp. unfold mbqm_c.
+  pose proof (rdbpot_c_abs (srdhm32_c (x * 2 ^ Z.max 0 (31 - s)) m) (Z.max 0 (s - 31)) ltac:(lia)).
+  pose proof (srdhm32_c_abs _ m Hp Hm). lia.
+Qed.
+
+Lemma MBQM_closed x m s :
+  in32 x -> in32 m -> 0 <= s <= 62 -> in32 (x * 2 ^ Z.max 0 (31 - s)) ->
+  MultiplyByQuantizedMultiplier x m (31 - s) = mbqm_c x m s.
+Proof.
+  intros Hx Hm Hs Hp.
+  destruct (mbqm_eq_reference_lemma x m s) as [E _]; try (apply in_int32_true; assumption); try lia.
+  rewrite mbqm_gen_closed in E by assumption. congruence.
+Qed.
+
+(* ------------------------------------------------------------------------------------------
+   integer-only tables *)
+Definition code8 (v : Z) : Prop := -128 <= v <= 255.   (* an int8 or uint8 code / zero point *)
+
+Lemma small_shift_in32 d s : -255 <= d <= 255 -> 9 <= s -> in32 (d * 2 ^ Z.max 0 (31 - s)) /\
+  Z.abs (d * 2 ^ Z.max 0 (31 - s)) <= 1069547520.
+Proof.
+  intros Hd Hs. assert (1 <= 2 ^ Z.max 0 (31 - s) <= 4194304).
+  { pose proof (pow2_pos (Z.max 0 (31 - s)) ltac:(lia)). pose proof (pow2_le (Z.max 0 (31 - s)) 22 ltac:(lia)).
+    change (2 ^ 22) with 4194304 in *. lia. }
+  unfold in32. split; nia.
+Qed.
+
+Lemma lut_lrelu_correct_lemma zi zo ids idsh als alsh qmin qmax x :
+  code8 zi -> code8 zo -> code8 x ->
+  in_int 32 ids = true -> in_int 32 als = true -> 9 <= idsh <= 62 -> 9 <= alsh <= 62 ->
+  vela_lrelu_entry zi zo ids idsh 1 als alsh qmin qmax x =
+    Some (LeakyReluRef zi zo ids (31 - idsh) als (31 - alsh) qmin qmax x).
+Proof.
+  unfold code8. intros Hzi Hzo Hx Hids Hals Hs1 Hs2.
+  apply in_int32_true in Hids. apply in_int32_true in Hals.
+  unfold vela_lrelu_entry, LeakyReluRef. cbv zeta. rewrite Z.mul_1_l.
+  rewrite (cast32_id (x - zi)) by (unfold in32; lia).
+  destruct (Z.ltb_spec x zi); destruct (Z.geb_spec (x - zi) 0); try lia.
+  - destruct (small_shift_in32 (x - zi) alsh ltac:(lia) ltac:(lia)) as [Hp Hb].
+    rewrite mbqm_gen_closed by (assumption || lia). cbn [obind].
+    rewrite MBQM_closed by (assumption || lia || (unfold in32; lia)).
+    pose proof (mbqm_c_abs (x - zi) als alsh Hals ltac:(lia) Hp).
+    rewrite cast32_id by (unfold in32; lia). reflexivity.
+  - destruct (small_shift_in32 (x - zi) idsh ltac:(lia) ltac:(lia)) as [Hp Hb].
+    rewrite mbqm_gen_closed by (assumption || lia). cbn [obind].
+    rewrite MBQM_closed by (assumption || lia || (unfold in32; lia)).
+    pose proof (mbqm_c_abs (x - zi) ids idsh Hids ltac:(lia) Hp).
+    rewrite cast32_id by (unfold in32; lia). reflexivity.
+Qed.
+
+Lemma mid_shift_in32 d s : -65535 <= d <= 65535 -> 16 <= s -> in32 (d * 2 ^ Z.max 0 (31 - s)) /\
+  Z.abs (d * 2 ^ Z.max 0 (31 - s)) <= 2147450880.
+Proof.
+  intros Hd Hs. assert (1 <= 2 ^ Z.max 0 (31 - s) <= 32768).
+  { pose proof (pow2_pos (Z.max 0 (31 - s)) ltac:(lia)). pose proof (pow2_le (Z.max 0 (31 - s)) 15 ltac:(lia)).
+    change (2 ^ 15) with 32768 in *. lia. }
+  unfold in32. split; nia.
+Qed.
+
+(* optimise_quantize, int8 -> int8 and int16 -> int16 constants *)
+Lemma quantize_fold_correct_lemma zi zo m s qmin qmax v :
+  in_int 16 v = true -> in_int 16 zi = true -> -512 <= zo <= 511 -> in_int 32 m = true -> 16 <= s <= 62 ->
+  vela_requant_entry zi zo m s qmin qmax v = Some (RequantizeRef zi zo m (31 - s) qmin qmax v).
+Proof.
+  intros Hv Hzi Hzo Hm Hs. apply in_int16_true in Hv. apply in_int16_true in Hzi. apply in_int32_true in Hm.
+  unfold in16 in *. unfold vela_requant_entry, RequantizeRef. cbv zeta.
+  rewrite (cast32_id (v - zi)) by (unfold in32; lia).
+  destruct (mid_shift_in32 (v - zi) s ltac:(lia) ltac:(lia)) as [Hp Hb].
+  rewrite mbqm_gen_closed by (assumption || lia). cbn [obind].
+  rewrite MBQM_closed by (assumption || lia || (unfold in32; lia)).
+  pose proof (mbqm_c_abs (v - zi) m s Hm ltac:(lia) Hp).
+  rewrite cast32_id by (unfold in32; lia). reflexivity.
+Qed.
+
+Example lut_lrelu_example :
+  vela_lrelu_entry (-128) (-128) 1073741824 30 1 1717986918 34 (-128) 127 (-100) = Some (-100) /\
+  vela_lrelu_entry 3 (-5) 1073741824 31 1 1717986918 34 (-128) 127 (-100) = Some (-15) /\
+  LeakyReluRef 3 (-5) 1073741824 0 1717986918 (-3) (-128) 127 (-100) = -15.
+Proof. vm_compute. repeat split. Qed.
+
+Example quantize_fold_example :
+  vela_requant_entry (-128) (-128) 1073741824 31 (-128) 127 100 = Some (-14) /\
+  RequantizeRef 0 0 1518500250 1 (-32768) 32767 (-20000) = -28284.
 Proof. vm_compute. repeat split. Qed.
